@@ -269,9 +269,23 @@ pub fn run(p: &Params) -> Outcome {
     }
 }
 
+mod fuzzwrap {
+    include!("../fuzz/wrap.rs");
+}
+
 pub fn replay(_p: &Params, v: &Value) -> Outcome {
     let mut ctx = Ctx::new(0);
-    let b = unhex(v["hex"].as_str().unwrap_or(""));
+    let mut b = unhex(v["hex"].as_str().unwrap_or(""));
+    if v["kind"] == "fuzz_input" {
+        // raw libFuzzer artifact: convert to the frame it stands for
+        match fuzzwrap::wrap(&b) {
+            Some(f) => b = f,
+            None => {
+                ctx.inconclusive("fuzz artifact too short to stand for a frame".into());
+                return Outcome { ctx, rule: "replay of a fuzz artifact".into(), exhaustive: false, extra: json!({}) };
+            }
+        }
+    }
     check_bytes(&mut ctx, &b, None, "replay");
     Outcome { ctx, rule: "replay of one recorded input".into(), exhaustive: false, extra: json!({}) }
 }
